@@ -222,5 +222,14 @@ def run(repo, rep, tier):
     if i.status != 'discharged' or i.nontrivial:
       i.rule = 'R4/' + i.rule.split('/', 1)[1]
       rep.instances.append(i)
+  # analysis side: the one-sided lower bound of TBR.summary(level=sig_level, tails=1) is the alpha-quantile of the posterior (C06.R2/R5)
+  from mmsa import tbrrules
+  sub = type(rep)(rep.prop, rep.tier, rep.repo)
+  tbrrules.summary_rules(repo, sub, '')
+  tbrrules.distribution_rules(repo, sub, '')
+  for i in sub.instances:
+    if i.rule in ('R2/one-distribution', 'R5/posterior-shape', 'R4/scale-sign'):
+      i.rule = 'R5/analysis-side-' + i.rule.split('/', 1)[1]
+      rep.instances.append(i)
   rep.assume('lemma (not mechanised): std(y, ddof=2)*sqrt(1 - corr^2) equals the residual standard deviation (ddof=2) of the OLS fit of y on x')
   rep.floor('identities and dependence facts', sum(1 for i in rep.instances if i.rule.startswith(('R1', 'R2'))), 6)
